@@ -684,13 +684,18 @@ func (db *DB) LoadMigration(name, text string) error {
 			continue
 		}
 		var fields []string
+		ftypes := map[string]string{}
 		for _, f := range strings.Split(m[2], ",") {
 			fs := strings.Fields(f)
 			if len(fs) > 0 {
 				fields = append(fields, strings.ToLower(fs[0]))
+				if len(fs) > 1 {
+					ftypes[strings.ToLower(fs[0])] = strings.ToLower(strings.Trim(fs[1], "()"))
+				}
 			}
 		}
 		compositeTypes[tn] = fields
+		compositeFieldTypes[tn] = ftypes
 	}
 	toks, err := lex(text)
 	if err != nil {
